@@ -299,6 +299,148 @@ fn gen_component(rng: &mut Rng, n: usize) -> Vec<(u32, u32)> {
     atts
 }
 
+/// Structured base frameworks: shapes a sparse random digraph practically never has (an argument
+/// with hundreds of attackers or targets, a hundred components, a chain or cycle of several
+/// hundred arguments, a layered acyclic graph whose unique extension is known). Returns the size,
+/// the attacks IN DECLARATION ORDER (not sorted: the order is part of the shape) and the arguments
+/// worth querying.
+fn gen_structured(rng: &mut Rng) -> (usize, Vec<(u32, u32)>, Vec<u32>) {
+    let mut atts: Vec<(u32, u32)> = vec![];
+    let mut special: Vec<u32> = vec![];
+    let n;
+    match rng.below(5) {
+        0 => {
+            // in-hub: h attacked by k arguments, most of them defeated by a common defender c;
+            // 0..3 of them (and 0..2 extra attackers declared last) stay undefeated; h -> x -> y
+            let k = *rng.pick(&[17usize, 33, 64, 65, 100, 128, 129, 200, 255, 256, 257, 258, 300, 400]);
+            let (c, h, x, y) = (0u32, 1u32, 2u32, 3u32);
+            let b0 = 4u32;
+            let late = rng.below(3) as u32;
+            n = 4 + k + late as usize;
+            let undefeated: Vec<u32> = (0..rng.below(4)).map(|_| b0 + rng.below(k) as u32).collect();
+            let mut first: Vec<(u32, u32)> = vec![];
+            for i in 0..k as u32 {
+                if !undefeated.contains(&(b0 + i)) {
+                    first.push((c, b0 + i));
+                }
+                first.push((b0 + i, h));
+            }
+            match rng.below(3) {
+                0 => {}
+                1 => first.reverse(),
+                _ => rng.shuffle(&mut first),
+            }
+            atts.extend(first);
+            atts.push((h, x));
+            atts.push((x, y));
+            for j in 0..late {
+                atts.push((b0 + k as u32 + j, h)); // decisive attackers declared after all the others
+            }
+            if rng.chance(1, 3) {
+                atts.push((y, b0)); // a cycle through the hub
+            }
+            special.extend([h, x, y, c, b0, b0 + k as u32 - 1]);
+        }
+        1 => {
+            // out-hub feeding in-hubs: c attacks k arguments, which attack a few targets in groups
+            let k = *rng.pick(&[40usize, 64, 65, 130, 257, 300]);
+            let t = rng.range(1, 4);
+            n = 1 + k + t + 1;
+            let spare = (1 + k + t) as u32;
+            for i in 0..k as u32 {
+                if !rng.chance(1, 40) {
+                    atts.push((0, 1 + i));
+                }
+                atts.push((1 + i, 1 + k as u32 + (i % t as u32)));
+            }
+            atts.push((spare, 0));
+            if rng.bool() {
+                atts.push((1 + k as u32, spare)); // the first target defends the hub against its attacker
+            }
+            special.extend((0..t as u32).map(|j| 1 + k as u32 + j));
+            special.extend([0, 1, spare]);
+        }
+        2 => {
+            // many small components
+            let comps = rng.range(30, 150);
+            let mut at = 0u32;
+            for _ in 0..comps {
+                let m = match rng.below(6) {
+                    0 => 1,
+                    1 | 2 => 2,
+                    3 => 3,
+                    4 => 4,
+                    _ => rng.range(2, 6),
+                } as u32;
+                match rng.below(4) {
+                    0 => {
+                        for i in 0..m {
+                            atts.push((at + i, at + (i + 1) % m)); // cycle (m = 1: self-attack)
+                        }
+                    }
+                    1 => {
+                        for i in 0..m.saturating_sub(1) {
+                            atts.push((at + i, at + i + 1));
+                        }
+                    }
+                    2 => {
+                        for i in 0..m.saturating_sub(1) {
+                            atts.push((at + i, at + i + 1));
+                            atts.push((at + i + 1, at + i));
+                        }
+                    }
+                    _ => {}
+                }
+                if rng.chance(1, 4) {
+                    special.push(at + rng.below(m as usize) as u32);
+                }
+                at += m;
+            }
+            n = at as usize;
+            if rng.bool() {
+                rng.shuffle(&mut atts);
+            }
+        }
+        3 => {
+            // a long chain or cycle with a few chords
+            let len = rng.range(100, 500);
+            n = len;
+            for i in 0..len as u32 - 1 {
+                atts.push((i, i + 1));
+            }
+            if rng.bool() {
+                atts.push((len as u32 - 1, 0));
+            }
+            for _ in 0..rng.below(4) {
+                atts.push((rng.below(len) as u32, rng.below(len) as u32));
+            }
+            if rng.chance(1, 3) {
+                atts.reverse();
+            }
+            special.extend([0, 1, len as u32 / 2, len as u32 - 2, len as u32 - 1]);
+        }
+        _ => {
+            // layered acyclic graph: attacks only from a lower to a higher index (unique extension)
+            n = rng.range(50, 400);
+            let fan = rng.range(1, 4);
+            for b in 1..n {
+                for _ in 0..rng.below(fan + 1) {
+                    let span = *rng.pick(&[3usize, 10, 50, 400]);
+                    let a = b - 1 - rng.below(b.min(span));
+                    atts.push((a as u32, b as u32));
+                }
+            }
+            if rng.bool() {
+                rng.shuffle(&mut atts);
+            }
+        }
+    }
+    let mut seen = std::collections::HashSet::new();
+    atts.retain(|a| (a.0 as usize) < n && (a.1 as usize) < n && seen.insert(*a));
+    special.retain(|q| (*q as usize) < n);
+    (n, atts, special)
+}
+
 fn draw_pool(rng: &mut Rng, want_stable: bool) -> Pool {
     loop {
         let p = match rng.below(5) {
@@ -320,8 +462,8 @@ impl Property for C11 {
     }
     fn runs(&self, tier: Tier) -> u64 {
         match tier {
-            Tier::Quick => 400,
-            Tier::Thorough => 12_000,
+            Tier::Quick => 600,
+            Tier::Thorough => 15_000,
         }
     }
     fn wall_cap(&self, tier: Tier) -> u64 {
@@ -332,10 +474,14 @@ impl Property for C11 {
     }
     fn gen(&self, run_seed: u64, _tier: Tier) -> Value {
         let mut rng = Rng::sub(run_seed, "workload");
-        let n = *rng.pick(&[20usize, 25, 30, 40, 50, 60, 80, 100, 150, 200, 300]);
-        let n = rng.range(n * 3 / 4, n).max(20);
-        let atts = gen_component(&mut rng, n);
-        let queries: Vec<u32> = (0..rng.range(2, 3)).map(|_| rng.below(n) as u32).collect();
+        let (n, atts, special) = if rng.chance(2, 5) {
+            gen_structured(&mut rng)
+        } else {
+            let n = *rng.pick(&[20usize, 25, 30, 40, 50, 60, 80, 100, 150, 200, 300]);
+            let n = rng.range(n * 3 / 4, n).max(20);
+            (n, gen_component(&mut rng, n), vec![])
+        };
+        let queries: Vec<u32> = (0..rng.range(2, 3)).map(|_| if !special.is_empty() && rng.chance(2, 3) { *rng.pick(&special) } else { rng.below(n) as u32 }).collect();
         let mut orng = Rng::sub(run_seed, "oracle");
         let mut oracle = |rng: &mut Rng| {
             if rng.chance(1, 4) {
@@ -521,6 +667,51 @@ impl Property for C11 {
                 }
             }
             let stable_exists = matches!(ext(Sem::ST), Some(Some(_)));
+            // what the grounded extension (computed here, polynomially) settles: its members belong to
+            // every complete extension, the arguments it attacks to none; when it settles every
+            // argument it is the unique extension of all seven semantics
+            let out_by_gr: Vec<bool> = (0..*n2).map(|a| big.attackers[a].iter().any(|b| gr[*b])).collect();
+            let gr_total = (0..*n2).all(|a| gr[a] || out_by_gr[a]);
+            let qmap = &all[k].1;
+            for qi in 0..case.queries.len() {
+                let q = qmap[case.queries[qi] as usize];
+                let settled = if gr[q] {
+                    Some(St::Yes)
+                } else if out_by_gr[q] {
+                    Some(St::No)
+                } else {
+                    None
+                };
+                for sem in SEMS {
+                    for kind in 0..2 {
+                        let got = ans.st[idx(sem)][qi][kind].clone();
+                        if got == St::Skipped {
+                            continue;
+                        }
+                        let expected = match sem {
+                            Sem::GR => Some(if gr[q] { St::Yes } else { St::No }),
+                            Sem::CO | Sem::PR | Sem::SST | Sem::ID => settled.clone(),
+                            // ST and STG follow only when the grounded extension is itself stable
+                            Sem::ST | Sem::STG => {
+                                if gr_total {
+                                    settled.clone()
+                                } else {
+                                    None
+                                }
+                            }
+                        };
+                        if let Some(e) = expected {
+                            if got != e {
+                                r.violations.push(
+                                    v("grounded-consequence", format!("{}-{} of argument {} answered {} but the argument is {} the grounded extension{}", if kind == 0 { "DC" } else { "DS" }, sem.name(), q + 1, show(&got), if gr[q] { "in" } else if out_by_gr[q] { "attacked by" } else { "not in" }, if gr_total { ", which settles every argument" } else { "" }))
+                                        .at("sem", sem.name())
+                                        .at("kind", if kind == 0 { "DC" } else { "DS" }),
+                                );
+                            }
+                        }
+                    }
+                }
+            }
             for qi in 0..case.queries.len() {
                 let get = |s: Sem, kind: usize| ans.st[idx(s)][qi][kind].clone();
                 let dcco = get(Sem::CO, 0);
@@ -626,7 +817,7 @@ impl Property for C11 {
         out.into_iter().map(|c| serde_json::to_value(c).unwrap()).collect()
     }
     fn rule(&self) -> String {
-        "case = a random sparse framework of 20..300 arguments (tree backbone + extra, mutual and self attacks) read through the real ICCMA'23 reader in 3..5 presentations: base; arguments renamed/reordered; attack lines shuffled and repeated; disjoint union with pooled components that have a stable extension (even cycles, chains, isolated arguments); union with additionally a component WITHOUT stable extension (odd cycle, self-attacker chain). All DC/DS problems for 2..3 arguments of the base component and all SE problems are run on every presentation, each presentation under a different SAT-oracle behaviour (real CaDiCaL steered by 24 seeded assumptions per call, or plain CaDiCaL). Oracle (differential): equal statuses across presentations (ST: all-skeptical/none-credulous when a component without stable extension is added); GR within ID within every returned PR extension; DC-CO = DC-PR; skeptical => credulous when an extension exists; ST/SST/STG coincide when SE-ST returns an extension; every returned extension/certificate passes the polynomial checks (conflict-free, admissible, F(S)=S, stable, grounded = lfp). Budget: 600 SAT calls per query (deterministic); over-budget queries are counted as skipped, not passed. 1/20 of the cases also go through the real binaries with files on disk. Non-trivial = every case; distinct = distinct case".into()
+        "case = a framework of 20..600 arguments — 3/5 a random sparse digraph (tree backbone + extra, mutual and self attacks), 2/5 a STRUCTURED one: an argument with 17..400 attackers mostly defeated by a common defender, with 0..2 decisive attackers declared last; an out-hub with 40..300 targets feeding in-hubs; 30..150 small components; a chain or cycle of 100..500 arguments with chords; a layered acyclic graph of 50..400 arguments (unique extension = grounded) — read through the real ICCMA'23 reader in 3..5 presentations: base; arguments renamed/reordered; attack lines shuffled and repeated; disjoint union with pooled components that have a stable extension (even cycles, chains, isolated arguments); union with additionally a component WITHOUT stable extension (odd cycle, self-attacker chain). All DC/DS problems for 2..3 arguments of the base component and all SE problems are run on every presentation, each presentation under a different SAT-oracle behaviour (real CaDiCaL steered by 24 seeded assumptions per call, or plain CaDiCaL). Oracle: GROUNDED CONSEQUENCES (absolute): DC/DS-GR equal membership in the grounded extension computed here as a least fixed point; its members are accepted and the arguments it attacks rejected under CO, PR, SST, ID (and under ST, STG when it settles every argument); DIFFERENTIAL: equal statuses across presentations (ST: all-skeptical/none-credulous when a component without stable extension is added); GR within ID within every returned PR extension; DC-CO = DC-PR; skeptical => credulous when an extension exists; ST/SST/STG coincide when SE-ST returns an extension; every returned extension/certificate passes the polynomial checks (conflict-free, admissible, F(S)=S, stable, grounded = lfp). Budget: 600 SAT calls per query (deterministic); over-budget queries are counted as skipped, not passed. 1/20 of the cases also go through the real binaries with files on disk. Non-trivial = every case; distinct = distinct case".into()
     }
     fn assumptions(&self) -> Vec<String> {
         vec![
